@@ -51,6 +51,29 @@ func staleIDScenario() scenario {
 	}
 }
 
+// maglevScenario: a maglev service loses the annotation, gets it back, loses its ready endpoints, changes its port
+// (new id), and is removed.
+func maglevScenario() scenario {
+	cip := u32ip(10, 96, 0, 1)
+	e1, e2 := mkEp(u32ip(10, 1, 1, 1), 8000, true), mkEp(u32ip(10, 1, 0, 1), 8000, true)
+	n1, n2 := e1, e2
+	n1.ready, n1.serving, n2.ready, n2.serving = false, false, false, false
+	m := svcSpec{name: 0, cip: cip, port: 80, proto: 6, lb: []uint32{u32ip(36, 0, 0, 1)}, maglev: true}
+	plain := m
+	plain.maglev = false
+	m81 := m
+	m81.port = 81
+	return scenario{npips: []uint32{hostIP}, tags: []string{"scripted:maglev"}, steps: []step{
+		{state: []svcState{{svc: m, eps: []epSpec{e1, e2}}}},
+		{state: []svcState{{svc: plain, eps: []epSpec{e1, e2}}}},
+		{state: []svcState{{svc: m, eps: []epSpec{e1, e2}}}},
+		{state: []svcState{{svc: m, eps: []epSpec{n1, n2}}}},
+		{state: []svcState{{svc: m, eps: []epSpec{e1, e2}}}},
+		{state: []svcState{{svc: m81, eps: []epSpec{e1}}}},
+		{state: nil},
+	}}
+}
+
 func scripted() []scenario {
 	cip := u32ip(10, 96, 0, 1)
 	e1, e2, e3 := mkEp(u32ip(10, 1, 1, 1), 8000, true), mkEp(u32ip(10, 1, 0, 1), 8000, true), mkEp(u32ip(10, 1, 2, 1), 8000, true)
@@ -68,7 +91,7 @@ func scripted() []scenario {
 		{state: []svcState{{svc: s2, eps: []epSpec{e2}}}},
 		{state: nil},
 	}}
-	return []scenario{basic, staleIDScenario()}
+	return []scenario{basic, staleIDScenario(), maglevScenario()}
 }
 
 // probeReset reports whether the tree under test forgets the service ids adopted by a failed first
